@@ -61,9 +61,26 @@ func report(run *checkRun, verif string, verbose, writeEv bool) int {
 	solverTime := map[string]float64{}
 	solverCount := map[string]int{}
 	covers := 0
+	nBounded := 0
 	for _, o := range run.obls {
 		solverTime[o.Solver] += o.Seconds
 		solverCount[o.Solver]++
+		if o.Kind == "bounded" {
+			// never counted as proved
+			nBounded++
+			if o.ok() {
+				if verbose {
+					fmt.Printf("  bounded-ok %-77s %d cases\n", o.Name, o.Evals)
+				}
+				continue
+			}
+			if k := kf.open(run.prop, o.Name); k != nil {
+				known = append(known, o)
+				continue
+			}
+			failed = append(failed, o)
+			continue
+		}
 		if o.ok() {
 			discharged++
 			if o.Cover {
@@ -140,8 +157,12 @@ func report(run *checkRun, verif string, verbose, writeEv bool) int {
 			fmt.Printf("NOTE: known finding %s names an obligation that is no longer generated\n", k.Obligation)
 		}
 	}
-	fmt.Printf("%s %s: %d obligations, %d discharged, %d known findings, %d violations, %.1fs\n",
-		run.prop, run.tier, len(run.obls), discharged, len(known), violations, run.wall)
+	extra := ""
+	if nBounded > 0 {
+		extra = fmt.Sprintf(" (+%d bounded stand-ins, not counted as proved)", nBounded)
+	}
+	fmt.Printf("%s %s: %d obligations, %d discharged, %d known findings, %d violations, %.1fs%s\n",
+		run.prop, run.tier, len(run.obls)-nBounded, discharged, len(known), violations, run.wall, extra)
 	if writeEv {
 		writeEvidence(run, verif, discharged, known, failed, solverTime, solverCount)
 	}
@@ -157,7 +178,10 @@ func writeReplay(run *checkRun, o *Obligation, dir string) (string, bool) {
 	}
 	fmt.Fprintf(&sb, "solver: %s status: %s time: %.2fs\n", o.Solver, o.Status, o.Seconds)
 	reproduced := false
-	if o.Status == "sat" && len(o.Model) > 0 {
+	if o.Kind == "bounded" {
+		reproduced = o.Reproduced
+		fmt.Fprintf(&sb, "\nBOUNDED stand-in (exhaustive enumeration on the real code, %d cases)\n", o.Evals)
+	} else if o.Status == "sat" && len(o.Model) > 0 {
 		fmt.Fprintf(&sb, "\ncounterexample (function inputs in the verifier's model):\n")
 		var ks []string
 		for k := range o.Model {
@@ -195,7 +219,12 @@ func writeEvidence(run *checkRun, verif string, discharged int, known, failed []
 	kinds := map[string]int{}
 	var samples []interface{}
 	perObl := []map[string]interface{}{}
+	var boundedList []map[string]interface{}
 	for _, o := range run.obls {
+		if o.Kind == "bounded" {
+			boundedList = append(boundedList, map[string]interface{}{"name": o.Name, "bound": o.Src, "evaluations": o.Evals, "status": map[bool]string{true: "no failing case within the bound", false: "FAILED"}[o.ok()], "seconds": round3(o.Seconds), "label": "bounded - never counted as proved"})
+			continue
+		}
 		funcs[o.Func] = true
 		kinds[o.Kind]++
 		perObl = append(perObl, map[string]interface{}{"name": o.Name, "kind": o.Kind, "status": o.Status, "solver": o.Solver, "seconds": round3(o.Seconds)})
@@ -246,7 +275,14 @@ func writeEvidence(run *checkRun, verif string, discharged int, known, failed []
 		k := kf.open(run.prop, o.Name)
 		knownList = append(knownList, map[string]string{"obligation": o.Name, "what": k.What, "status": o.Status})
 	}
-	claimed := len(run.obls) - len(known)
+	nb := len(boundedList)
+	knownProof := 0
+	for _, o := range known {
+		if o.Kind != "bounded" {
+			knownProof++
+		}
+	}
+	claimed := len(run.obls) - nb - knownProof
 	ev.Coverage = map[string]interface{}{
 		"obligations":            claimed,
 		"discharged":             discharged,
@@ -263,6 +299,9 @@ func writeEvidence(run *checkRun, verif string, discharged int, known, failed []
 		"generator_notes":        notes,
 		"arithmetic":             "mathematical integers with the Go type's range as typing invariant; every + - * and narrowing conversion in a function under contract carries an overflow obligation unless listed under overflow_unchecked",
 		"overflow_unchecked":     nooverflow,
+	}
+	if nb > 0 {
+		ev.Coverage["bounded_stand_ins"] = boundedList
 	}
 	if run.vacuity != nil {
 		ev.Coverage["seeded_change_corpus"] = run.vacuity
